@@ -14,7 +14,7 @@ LEVEL = 'model_checking'
 ZONES = [{'name': 'zz', 'start': 0x20, 'end': 0x2F}]
 CONFIGS = [
     ('o0-p1-le-16', R.Params(address_size=16, endian='little', origin=0, page_size=1, zones=ZONES)),
-    ('o3-p4-be-16', R.Params(address_size=16, endian='big', origin=3, page_size=4, zones=ZONES)),
+    ('o3-p6-be-16', R.Params(address_size=16, endian='big', origin=3, page_size=6, zones=ZONES)),
     ('o16-p4-le-8', R.Params(address_size=8, endian='little', origin=0x10, page_size=4, zones=ZONES)),
 ]
 
@@ -25,13 +25,13 @@ SIGMA = [
     ('data', 1, [('lab', 'G1')]), ('data', 2, [('lab', 'G0'), ('lab+', '_f0', 2)]),
     ('fill', 3, 0x55), ('fill', 0, 1), ('zero', 2), ('zerountil', 9), ('zerountil', ('lab', 'K1')),
     ('org', 5, None), ('org', 0x10, None), ('org', 2, 'zz'),
-    ('align', 4), ('align', None), ('align', 8),
+    ('align', 4), ('align', None), ('align', 10),
     ('memzone', 'zz'), ('memzone', 'GLOBAL'),
     ('mute',), ('unmute',),
     ('excluded',),
 ]
 CORE = [s for s in SIGMA if s not in (('label', '_f0'), ('brr', ('lab', 'G1')), ('fill', 0, 1), ('zerountil', ('lab', 'K1')),
-                                      ('org', 2, 'zz'), ('align', 8), ('memzone', 'GLOBAL'), ('unmute',))]
+                                      ('org', 2, 'zz'), ('memzone', 'GLOBAL'), ('unmute',))]
 
 
 def isa_of(p):
